@@ -45,7 +45,7 @@ Theorem publish_middle_owed : forall s live r s' op,
   exists bs cap off,
     enc_publish cap (pub_request r (effective_qos s (pr_qos r)) (op_pid op)) = SOk off bs /\
     owed (s_ob s') = owed (s_ob s) ++ bs /\
-    forall now, should_queue_pingreq s' now = should_queue_pingreq s now.
+    pframe s s'.
 Proof.
   intros s live r s' op I H. unfold publish_middle in H.
   destruct (negb (props_valid_for (pr_props r) CtxPublish)); [discriminate|].
@@ -68,7 +68,7 @@ Proof.
          end
      end) = (s', MRetained op) ->
     exists bs cap off, enc_publish cap (pub_request r q (op_pid op)) = SOk off bs /\ owed (s_ob s') = owed (s_ob s) ++ bs /\
-      forall now, should_queue_pingreq s' now = should_queue_pingreq s now).
+      pframe s s').
   { intros s1 id En G. pose proof (next_packet_id_ob s) as [Eo Er]. rewrite En in Eo, Er. cbn [fst] in Eo, Er.
     destruct (retained_full (s_ob s1)); [discriminate|]. destruct (negb (live && sess_can_publish s1 q)); [discriminate|].
     cbv zeta in G. destruct (encode_at (s_ob s1) (fun cap => enc_publish cap (pub_request r q id))) as [o1 er] eqn:Ee.
@@ -79,7 +79,7 @@ Proof.
                 (enc_publish_fits (pub_request r q id)) Ee Er2) as [bs [_ [Ab [_ [[cap [off' Hb]] [Hc [Hl _]]]]]]].
     exists bs, cap, off'. split; [exact Hb|]. split.
     - rewrite <- Eo. eapply owed_append; eassumption.
-    - intros now. apply sq_frame; cbn [s_rt s_ob set_rt set_ob rt_with_quota rt_ping_timeout rt_next_ping]; [rewrite <- Er; reflexivity|rewrite <- Er; reflexivity|].
+    - unfold pframe. cbn [s_rt s_ob set_rt set_ob rt_with_quota rt_ping_timeout rt_next_ping]. split; [rewrite <- Er; reflexivity|]. split; [rewrite <- Er; reflexivity|].
       rewrite Hc, Eo. reflexivity. }
   destruct q eqn:Eq.
   - (* QoS 0 never returns a handle *)
@@ -94,7 +94,7 @@ Theorem enqueue_middle_owed : forall s kind enc s' op,
   Inv s -> (forall id cap off bs, enc cap id = SOk off bs -> off + lenN bs <= cap /\ 2 <= lenN bs) ->
   enqueue_middle s kind enc = (s', MRetained op) ->
   exists bs cap off, enc cap (op_pid op) = SOk off bs /\ owed (s_ob s') = owed (s_ob s) ++ bs /\
-    forall now, should_queue_pingreq s' now = should_queue_pingreq s now.
+    pframe s s'.
 Proof.
   intros s kind enc s' op I Hfit H. unfold enqueue_middle in H.
   destruct (retained_full (s_ob s)); [discriminate|].
@@ -106,7 +106,7 @@ Proof.
   destruct (encode_retain_spec (s_ob s1) _ o1 off len id o2 ltac:(rewrite Eo; exact (oi_arena _ (inv_ob _ I)))
               (fun cap off' bs => Hfit id cap off' bs) Ee Er2) as [bs [_ [Ab [_ [[cap [off' Hb]] [Hc [Hl _]]]]]]].
   exists bs, cap, off'. split; [exact Hb|]. split; [rewrite <- Eo; eapply owed_append; eassumption|].
-  intros now. apply sq_frame; cbn [s_rt s_ob set_ob]; [rewrite Er; reflexivity|rewrite Er; reflexivity|]. rewrite Hc, Eo. reflexivity.
+  unfold pframe. cbn [s_rt s_ob set_ob]. split; [rewrite Er; reflexivity|]. split; [rewrite Er; reflexivity|]. rewrite Hc, Eo. reflexivity.
 Qed.
 
 (* ---------------------------------------------------------------- the drain, for every outcome but an error *)
@@ -180,7 +180,7 @@ Proof.
     subst o. destruct (publish_middle_owed _ _ _ _ _ (proj1 I1) Em) as [bs [cap [off [Hb [Ho Hk]]]]].
     assert (Hstep : sstep (w_sess w1) LOther s2).
     { replace s2 with (fst (publish_middle (w_sess w1) (w_live w1) r)) by now rewrite Em. apply SS_publish. }
-    destruct (finish_retained_wire fuel w1 s2 bs op w' I1 Q1 Hn1 Hstep Ho Hk H) as [Hw Hn].
+    destruct (finish_retained_wire fuel w1 s2 bs op w' I1 Q1 Hn1 Hstep Ho (pframe_sq _ _ Hk) H) as [Hw Hn].
     exists w1, bs, cap, off. split; [reflexivity|]. split; [exact Hb|]. split; [|exact Hn]. rewrite Hw, Hw1, <- app_assoc. reflexivity.
   - (* QoS 0 returns no handle *)
     cbn [finish_mid] in H. destruct (write_all fuel bs0 (upd_sess w1 s2)) as [w3 r3]. destruct r3 as [u|e| | |]; try discriminate.
@@ -209,7 +209,7 @@ Proof.
       as [bs [cap [off [Hb [Ho Hr]]]]].
     assert (Hstep : sstep (w_sess w1) LOther s2).
     { replace s2 with (fst (subscribe_middle (w_sess w1) topics ps)) by (unfold subscribe_middle; now rewrite Em). apply SS_subscribe. }
-    destruct (finish_retained_wire fuel w1 s2 bs op w' I1 Q1 Hn1 Hstep Ho Hr H) as [Hw Hn].
+    destruct (finish_retained_wire fuel w1 s2 bs op w' I1 Q1 Hn1 Hstep Ho (pframe_sq _ _ Hr) H) as [Hw Hn].
     exists bs, cap, off. split; [exact Hb|]. split; [|exact Hn]. rewrite Hw, Hw1, <- app_assoc. reflexivity.
   - unfold subscribe_middle, enqueue_middle in Em. destruct (retained_full _); [discriminate|]. destruct (next_packet_id _). destruct (encode_at _ _) as [o1 [off len|e]]; [|discriminate].
     destruct (too_large _ _); [discriminate|]. destruct (retain_packet _ _ _ _); discriminate.
@@ -236,7 +236,7 @@ Proof.
       as [bs [cap [off [Hb [Ho Hr]]]]].
     assert (Hstep : sstep (w_sess w1) LOther s2).
     { replace s2 with (fst (unsubscribe_middle (w_sess w1) topics ps)) by (unfold unsubscribe_middle; now rewrite Em). apply SS_unsubscribe. }
-    destruct (finish_retained_wire fuel w1 s2 bs op w' I1 Q1 Hn1 Hstep Ho Hr H) as [Hw Hn].
+    destruct (finish_retained_wire fuel w1 s2 bs op w' I1 Q1 Hn1 Hstep Ho (pframe_sq _ _ Hr) H) as [Hw Hn].
     exists bs, cap, off. split; [exact Hb|]. split; [|exact Hn]. rewrite Hw, Hw1, <- app_assoc. reflexivity.
   - unfold unsubscribe_middle, enqueue_middle in Em. destruct (retained_full _); [discriminate|]. destruct (next_packet_id _). destruct (encode_at _ _) as [o1 [off len|e]]; [|discriminate].
     destruct (too_large _ _); [discriminate|]. destruct (retain_packet _ _ _ _); discriminate.
@@ -370,7 +370,7 @@ Proof.
     + right. destruct (publish_middle_owed _ _ _ _ _ (proj1 I1) Em) as [bs [cap [off [Hb [Ho Hk]]]]].
       assert (Hstep : sstep (w_sess w1) LOther s2).
       { replace s2 with (fst (publish_middle (w_sess w1) (w_live w1) r)) by now rewrite Em. apply SS_publish. }
-      destruct (finish_retained_cancel fuel w1 s2 bs o w' I1 Q1 Hn1 Hstep Ho Hk H) as [T [I' Q']].
+      destruct (finish_retained_cancel fuel w1 s2 bs o w' I1 Q1 Hn1 Hstep Ho (pframe_sq _ _ Hk) H) as [T [I' Q']].
       split; [exact I'|]. split; [exact Q'|]. right. exists w1, bs, cap, off, (op_pid o). split; [reflexivity|]. split; [exact Hb|].
       rewrite T, Hw1. unfold total. rewrite <- app_assoc. reflexivity.
     + left. exists w1. split; [reflexivity|]. exact (proj1 (publish_middle_direct _ _ _ _ _ Em)).
@@ -397,7 +397,7 @@ Proof.
         as [bs [cap [off [Hb [Ho Hr]]]]].
       assert (Hstep : sstep (w_sess w1) LOther s2).
       { replace s2 with (fst (subscribe_middle (w_sess w1) topics ps)) by (unfold subscribe_middle; now rewrite Em). apply SS_subscribe. }
-      destruct (finish_retained_cancel fuel w1 s2 bs o w' I1 Q1 Hn1 Hstep Ho Hr H) as [T [I' Q']].
+      destruct (finish_retained_cancel fuel w1 s2 bs o w' I1 Q1 Hn1 Hstep Ho (pframe_sq _ _ Hr) H) as [T [I' Q']].
       split; [exact I'|]. split; [exact Q'|]. right. exists bs, cap, off, (op_pid o). split; [exact Hb|].
       rewrite T, Hw1. unfold total. rewrite <- app_assoc. reflexivity.
     + unfold subscribe_middle, enqueue_middle in Em. destruct (retained_full _); [discriminate|]. destruct (next_packet_id _). destruct (encode_at _ _) as [o1 [off len|e]]; [|discriminate].
@@ -425,7 +425,7 @@ Proof.
         as [bs [cap [off [Hb [Ho Hr]]]]].
       assert (Hstep : sstep (w_sess w1) LOther s2).
       { replace s2 with (fst (unsubscribe_middle (w_sess w1) topics ps)) by (unfold unsubscribe_middle; now rewrite Em). apply SS_unsubscribe. }
-      destruct (finish_retained_cancel fuel w1 s2 bs o w' I1 Q1 Hn1 Hstep Ho Hr H) as [T [I' Q']].
+      destruct (finish_retained_cancel fuel w1 s2 bs o w' I1 Q1 Hn1 Hstep Ho (pframe_sq _ _ Hr) H) as [T [I' Q']].
       split; [exact I'|]. split; [exact Q'|]. right. exists bs, cap, off, (op_pid o). split; [exact Hb|].
       rewrite T, Hw1. unfold total. rewrite <- app_assoc. reflexivity.
     + unfold unsubscribe_middle, enqueue_middle in Em. destruct (retained_full _); [discriminate|]. destruct (next_packet_id _). destruct (encode_at _ _) as [o1 [off len|e]]; [|discriminate].
